@@ -596,6 +596,8 @@ func RunCase(r *prng.R, p *Profile, id string) *sexp.S {
 			default:
 				if r.Intn(3) == 0 {
 					ops.Add(sexp.L(sexp.A("restorebad"), sexp.N(j), sexp.Str("Nowhere")))
+				} else if r.Intn(4) == 0 {
+					ops.Add(sexp.L(sexp.A("restorenil"), sexp.N(j), sexp.Str(g.titles[r.Intn(len(g.titles))])))
 				} else if nsnaps > 0 && r.Intn(3) == 0 {
 					ops.Add(sexp.L(sexp.A("mutsnap"), sexp.N(r.Intn(nsnaps))))
 					ops.Add(sexp.L(sexp.A("snap"), sexp.N(j)))
